@@ -120,6 +120,17 @@ def _sample_task(t):
         return {"cid": cid, "binding": binding, "error": repr(e)}
 
 
+def _enum_task(t):
+    cid, tier, k, n = t
+    try:
+        rc, out, err = run_native(["enum", cid, tier, str(k), str(n)], timeout=3000)
+        if rc != 0:
+            return {"error": err[-1000:]}
+        return json.loads(out)
+    except Exception as e:
+        return {"error": repr(e)}
+
+
 def safe_name(s):
     return re.sub(r"[^A-Za-z0-9_.-]+", "_", s)[:150]
 
@@ -133,10 +144,12 @@ def check(prop, tier, seed):
               and (tier == "thorough" or getattr(c, "tier", "quick") == "quick")]
     tasks = []
     timeout_ms = 20000 if tier == "quick" else 80000
+    enum_contracts = [c for c in proved if getattr(c, "enum", None)]
+    proved = [c for c in proved if not getattr(c, "enum", None)]
     for c in proved:
         for b in c.instances():
             tasks.append((c.id, b, tier, timeout_ms))
-    if not tasks:
+    if not tasks and not enum_contracts:
         print(f"CHECKER-BROKEN property={prop}: no contracts registered")
         return 3
     nproc = min(int(os.environ.get("PYVC_JOBS", "16")), max(1, len(tasks)))
@@ -152,6 +165,30 @@ def check(prop, tier, seed):
 
     # ---- triage of failed / unknown obligations
     violations, findings_seen, undecided, bounded = [], {}, [], []
+    # ---- exhaustive native enumerations (bounded stand-ins for functions the engine cannot reach, e.g. regex code)
+    for c in enum_contracts:
+        nsh = 16
+        with ctxm.Pool(nsh) as pool:
+            outs = pool.map(_enum_task, [(c.id, tier, k, nsh) for k in range(nsh)], chunksize=1)
+        total = 0
+        for o in outs:
+            if "error" in o:
+                undecided.append({"instance": c.id, "reason": "enumeration failed to run: " + o["error"][-300:]})
+                continue
+            total += o["evaluations"]
+            for f in o["failures"]:
+                if f.get("known") and f["known"] in kf:
+                    findings_seen.setdefault(f["known"], {"replay": None, "why": f["why"], "inputs": f["inputs"]})
+                elif not any(v["instance"] == c.id for v in violations):
+                    os.makedirs(os.path.join("replays", prop), exist_ok=True)
+                    path = os.path.join("replays", prop, safe_name(c.id + "-enumerated") + ".json")
+                    json.dump({"property": prop, "contract": c.id, "binding": {}, "obligation": "exhaustive-enumeration",
+                               "inputs": f["inputs"], "native": {"status": "fail", "why": f["why"]}}, open(path, "w"), indent=1)
+                    violations.append({"instance": c.id, "obligation": "exhaustive-enumeration", "replay": path,
+                                       "why": f["why"], "confirmed": True})
+        bounded.append({"function": c.func, "instance": c.id, "reason": c.bounded or "outside the engine's reach",
+                        "bound": "exhaustive enumeration of the input grammar declared in the contract (tier %s)" % tier,
+                        "evaluations": total, "exhaustive_over_declared_grammar": True})
     replay_dir = os.path.join("replays", prop)
     n_obl = n_dis = 0
     sample_jobs = []
